@@ -633,7 +633,7 @@ def run_c15(rep, tier, seed):
 
 def run_c04_loads(rep, tier, seed):
     """end-to-end half of C04: selective loads on Hilbert-ordered 3-D outputs (and 1-/2-D ones) equal the filtered full load"""
-    nh, ns = (150, 60) if tier == "quick" else (2500, 600)
+    nh, ns = (150, 60) if tier == "quick" else (1000, 300)
     cfgs = make_cfgs(tier, seed + 6, ns, family=False, n_hilbert3=nh)
     lays = tlc_layouts(rep, cfgs, "c04")
     run_batch(rep, cfgs, lays, {"position", "position+value", "position+level", "position+cpus", "value", "cpus"}, "selective-loads", with_log=False)
